@@ -489,6 +489,14 @@ package common
 //@   trusted
 //@   assigns ghost(n_rotate_sync)
 //@   ensures n_rotate_sync == old(n_rotate_sync) + 1
+// the fork record an upgrade writes (C14 / C02): Fork.View() is recorded
+//@ ghost n_fork_view int
+//@ ghost last_fork_view ForkT
+//@ func (f *Fork) View() r
+//@   trusted
+//@   requires f != nil
+//@   assigns ghost(n_fork_view), ghost(last_fork_view)
+//@   ensures n_fork_view == old(n_fork_view) + 1 && last_fork_view == *f && r != nil
 // RotateEpochs (one epoch further): the shufflings shift (previous := current, current := next), the next shuffling is
 // computed for current.epoch + 1 from the state's registry, and the stake figures are reloaded from the state for the
 // new current epoch. (That the shifted shufflings equal ones computed from scratch is a statement about histories: not claimed.)
@@ -1513,6 +1521,7 @@ package common
 //@   assigns ghost(n_set_lhdr), ghost(set_lhdr)
 //@   assigns ghost(n_set_prevjust), ghost(set_prevjust), ghost(n_set_curjust), ghost(set_curjust), ghost(n_set_fin), ghost(set_fin), ghost(n_set_jbits), ghost(set_jbits)
 //@   assigns ghost(n_viter), ghost(viter_pos), ghost(viter_reg), ghost(n_val_write), ghost(n_wd_write), ghost(n_set_exit), ghost(set_exit_v), ghost(set_exit_val), ghost(n_set_wd), ghost(set_wd_v), ghost(set_wd_val)
+//@   assigns ghost(n_fork_view), ghost(last_fork_view)
 
 //@ func StateTransition(ctx, spec, epc, state, benv, validateResult) err
 //@   property C18
@@ -1544,6 +1553,7 @@ package common
 //@   assigns ghost(n_set_prevjust), ghost(set_prevjust), ghost(n_set_curjust), ghost(set_curjust), ghost(n_set_fin), ghost(set_fin), ghost(n_set_jbits), ghost(set_jbits)
 //@   assigns ghost(n_viter), ghost(viter_pos), ghost(viter_reg), ghost(n_val_write), ghost(n_wd_write), ghost(n_set_exit), ghost(set_exit_v), ghost(set_exit_val), ghost(n_set_wd), ghost(set_wd_v), ghost(set_wd_val)
 //@   assigns ghost(n_inc_depidx), ghost(n_add_val), ghost(add_val_pub), ghost(add_val_creds), ghost(add_val_bal)
+//@   assigns ghost(n_fork_view), ghost(last_fork_view)
 
 //@ func PostSlotTransition(ctx, spec, epc, state, benv, validateResult) err
 //@   property C18 C03
